@@ -104,7 +104,7 @@ def handoff(idx):
         flat = []
         for a in ctor.args:
             if isinstance(a, ast.Starred):
-                v = lib.inline_locals(a.value, rp.node)
+                v = _resolve_local(lib.inline_locals(a.value, rp.node), rp.node)
                 if not isinstance(v, (ast.Tuple, ast.List)):
                     raise AnalysisError('raw_parse: starred argument `%s` of MathExpression(...) is not a known tuple' % short(a))
                 flat.extend(v.elts)
@@ -119,6 +119,8 @@ def handoff(idx):
     out = {}
     copied = {}
     p2a = {}
+    unresolved = []
+    handoff.unresolved = unresolved
     for n in walk_own(init.node):
         if isinstance(n, ast.Assign) and len(n.targets) == 1 and isinstance(n.targets[0], ast.Attribute) \
                 and isinstance(n.targets[0].value, ast.Name) and n.targets[0].value.id == init.params[0]:
@@ -128,11 +130,41 @@ def handoff(idx):
     for pname, arg in mapping.items():
         if arg is None:
             continue
-        src, cp = _alias_source(lib.inline_locals(arg, rp.node))
+        src, cp = _alias_source(_resolve_local(lib.inline_locals(arg, rp.node), rp.node))
+        if isinstance(src, ast.Name) and src.id not in rp.params:
+            unresolved.append(pname)
         if isinstance(src, ast.Attribute) and isinstance(src.value, ast.Name) and src.value.id == me:
             for attr, cp2, node in p2a.get(pname, []):
                 out.setdefault(src.attr, []).append((attr, cp or cp2, calls[0], node))
     return out, rp, init, calls[0]
+
+
+def _resolve_local(e, fn, depth=0):
+    """Follow a local name to its single definition, also through tuple unpacking of a tuple display (possibly held in
+    another local): `collected = (a, b, c); x, y, z = collected` gives x -> a."""
+    if depth > 6 or not isinstance(e, ast.Name):
+        return e
+    defs = []
+    for n in walk_own(fn):
+        if isinstance(n, ast.Assign):
+            for t in n.targets:
+                if isinstance(t, ast.Name) and t.id == e.id:
+                    defs.append(n.value)
+                elif isinstance(t, (ast.Tuple, ast.List)):
+                    for i, x in enumerate(t.elts):
+                        if isinstance(x, ast.Name) and x.id == e.id:
+                            src = _resolve_local(n.value, fn, depth + 1) if isinstance(n.value, ast.Name) else n.value
+                            if isinstance(src, (ast.Tuple, ast.List)) and len(src.elts) == len(t.elts):
+                                defs.append(src.elts[i])
+                            else:
+                                defs.append(None)
+        elif isinstance(n, (ast.For, ast.AugAssign, ast.With)):
+            tgt = n.target if not isinstance(n, ast.With) else None
+            if tgt is not None and any(isinstance(x, ast.Name) and x.id == e.id for x in ast.walk(tgt)):
+                defs.append(None)
+    if len(defs) != 1 or defs[0] is None:
+        return e
+    return _resolve_local(defs[0], fn, depth + 1) if isinstance(defs[0], ast.Name) else defs[0]
 
 
 def _alias_source(e):
@@ -235,6 +267,10 @@ def d1_record(ctx, idx, st):
                 r.undecided('%s: recorded token' % kind, 'token expression `%s` not recognised' % unparse(expr), mloc)
             # field -> attribute
             targets = hand.get(field, [])
+            if not targets and getattr(handoff, 'unresolved', None):
+                r.undecided('%s: hand-off' % kind, 'the arguments %s of MathExpression(...) in raw_parse could not be traced to '
+                            'parser fields' % ', '.join(handoff.unresolved), mloc)
+                continue
             if not targets:
                 r.violation('%s: hand-off' % kind, 'the action records into self.%s, which raw_parse does not hand to the '
                             'MathExpression: the recorded names are lost' % field, mloc)
@@ -550,7 +586,7 @@ def d4_cache(ctx, idx, st):
         fi = idx.func(MP + '.parse')
         me = fi.params[0]
         cfg = cfg_of(fi.node)
-        call = lib.one_call(fi, 'raw_parse')
+        call, _parsed_arg = C03.parse_call_site(idx, fi)
         rnodes = lib.cfg_nodes_for(cfg, call)
         stores = [n for n in walk_own(fi.node) if isinstance(n, ast.Assign) and any(
             isinstance(t, ast.Subscript) and nf.match('%s.cache' % me, t.value) is not None for t in n.targets)]
@@ -1164,6 +1200,8 @@ def d7_singleton(ctx, idx, st):
         for f, n in users:
             if f.qualname in (MOD + '.parse', MOD + '.evaluator'):
                 continue
+            if f.cls is not None and f.cls.qualname == MP:
+                continue          # a private helper of the parser itself (MathParser.parse split into pieces)
             r.violation('%s: raw_parse' % f.qualname, 'raw_parse is called outside MathParser.parse: results bypass the cache and '
                         'the space normalisation', lib.loc(f, n))
         writers = []
@@ -1185,7 +1223,8 @@ def d7_singleton(ctx, idx, st):
         for f, n in writers:
             r.violation('%s: parser cache' % f.qualname, '`%s` fills the parser cache outside MathParser.parse: the outcome for a '
                         'formula then depends on what ran before' % short(n), lib.loc(f, n))
-        if not writers and not [u for u in users if u[0].qualname not in (MOD + '.parse', MOD + '.evaluator')]:
+        if not writers and not [u for u in users if u[0].qualname not in (MOD + '.parse', MOD + '.evaluator')
+                                and not (u[0].cls is not None and u[0].cls.qualname == MP)]:
             r.ok('package: cache writers / raw_parse callers', 'only MathParser.parse', '')
 
 
@@ -1419,4 +1458,18 @@ BENIGN = [
            "Optional(CaselessLiteral(\"E\") + Optional(plus | minus) + number_part)"),
     Benign('cache-store-removed', EXPR, "        self.cache[cache_key] = parsed\n        return parsed", "        return parsed"),
     Benign('grammar-signs-by-tuple-assignment', EXPR, "        minus = Literal(\"-\") | emdash\n", "        minus, dash = (Literal(\"-\") | emdash, emdash)\n"),
+    Benign('scratch-sets-handed-over-through-a-tuple', EXPR, [
+        (_RAW_OLD + _FINALLY, "        try:\n            BracketValidator.validate(expression)\n            tree = self.grammar.parseString(expression)[0]\n"
+         "        finally:\n            collected = (self.variables_used, self.functions_used, self.suffixes_used)\n            self.reset_storage()\n"
+         "            variables_used, functions_used, suffixes_used = collected\n"
+         "        return MathExpression(expression, tree, variables_used, functions_used, suffixes_used)"),
+    ], None),
+    Benign('raw-parse-behind-a-helper', EXPR, [
+        ("        try:\n            parsed = self.raw_parse(expression_no_whitespace)\n        except ParseException:\n"
+         "            msg = \"Invalid Input: Could not parse '{}' as a formula\"\n            raise UnableToParse(msg.format(expression))\n",
+         "        parsed = self._parse_uncached(expression, expression_no_whitespace)\n"),
+        ("    def parse(self, expression):", "    def _parse_uncached(self, expression, stripped):\n        try:\n            return self.raw_parse(stripped)\n"
+         "        except ParseException:\n            msg = \"Invalid Input: Could not parse '{}' as a formula\"\n            raise UnableToParse(msg.format(expression))\n\n"
+         "    def parse(self, expression):"),
+    ], None),
 ]
